@@ -162,7 +162,7 @@ def run(ctx):
     jobs = []
     for rec in recs:
         n = len(rec["rows"])
-        exh = (not ctx.quick) and n <= 4
+        exh = (not ctx.quick) and n <= 4 and ctx.rng.random() < 0.05  # every subset of restarts for a seeded 5 %
         for rs in restart_patterns(ctx.rng, n, exh, ctx.quick):
             jobs.append((rec, rs, ctx.rng.random() < 0.7, base))
     results = par.pmap(replay_one, jobs)
